@@ -46,6 +46,9 @@ type field struct {
 	Name    string // source field name
 	TName   string // target field name (C07 renames)
 	N       *node
+	// Embed: the field is an embedded struct (or pointer to struct); its name is the type name
+	// on each side (S<id> / T<id>), mapped with goverter:map.
+	Embed   bool
 	PtrOnT  bool   // source T, target *T
 	MapFunc string // C07: goverter:map F | Func on the enclosing struct's method
 }
@@ -69,6 +72,13 @@ type Spec struct {
 	KeyLeaf   bool
 	// swarm-style per-world knobs
 	W          [12]int // weights: leaf, basic, nbasic, struct, ptr, slice, map, ustruct, ref, enum, tptr, sptr
+	// Aliases: container/pointer field types that are spelled alike on both sides are declared
+	// through type aliases (type AL3 = map[string]string), and goverter runs with
+	// GODEBUG=gotypesalias=1 (what `go run github.com/jmattheis/goverter/cmd/goverter` from a
+	// go >= 1.23 module gives): go/types then hands out *types.Alias nodes.
+	Aliases bool
+	aliasOf map[string]string
+	aliasOrder []string
 	// UseUnderlying: goverter:useUnderlyingTypeMethods on the converter (C04 worlds; there is
 	// no method it could select, so the generated conversions must stay deep copies).
 	UseUnderlying bool
@@ -129,6 +139,7 @@ func NewSpec(seed uint64, prop string) *Spec {
 	s.UFieldsMax = 2 + r.IntN(3)
 	s.maxDepth = 3 + r.IntN(3)
 	s.UseUnderlying = prop == "C04" && r.IntN(3) == 0
+	s.Aliases = r.IntN(3) == 0
 	s.Shared = map[int]*node{}
 	s.NConts = map[int]*node{}
 	s.SkipCopyMode = "none"
@@ -211,6 +222,25 @@ func NewSpec(seed uint64, prop string) *Spec {
 			sp = &node{Kind: "slice", Elem: &node{Kind: "slice", Elem: &node{Kind: "tptr", Elem: &node{Kind: "basic", Basic: "int"}}}}
 		}
 		root.Fields = append(root.Fields, &field{Name: fmt.Sprintf("F%d", len(root.Fields)), TName: fmt.Sprintf("F%d", len(root.Fields)), N: sp})
+	}
+	if prop == "C04" && s.Aliases {
+		// a named struct, identical on both sides and with exported fields only, whose every
+		// reference (slice, map, pointer) is spelled through a type alias, as element of a
+		// slice and value of a map: an analysis that forgets types.Unalias sees plain values
+		sh := &node{Kind: "shared", ID: s.id()}
+		s.Shared[sh.ID] = sh
+		for i, fn := range []*node{
+			{Kind: "basic", Basic: "string"},
+			{Kind: "slice", Elem: &node{Kind: "basic", Basic: "int"}},
+			{Kind: "map", Key: &node{Kind: "basic", Basic: "string"}, Elem: &node{Kind: "basic", Basic: "string"}},
+			{Kind: "ptr", Elem: &node{Kind: "basic", Basic: "int"}},
+		} {
+			sh.Fields = append(sh.Fields, &field{Name: fmt.Sprintf("H%d", i), TName: fmt.Sprintf("H%d", i), N: fn})
+		}
+		root := s.Roots[0]
+		root.Fields = append(root.Fields,
+			&field{Name: fmt.Sprintf("F%d", len(root.Fields)), TName: fmt.Sprintf("F%d", len(root.Fields)), N: &node{Kind: "slice", Elem: sh}},
+			&field{Name: fmt.Sprintf("F%d", len(root.Fields)+1), TName: fmt.Sprintf("F%d", len(root.Fields)+1), N: &node{Kind: "map", Key: &node{Kind: "basic", Basic: "string"}, Elem: sh}})
 	}
 	if prop == "C04" && s.SkipCopy {
 		// converter-level skipCopySameType: positions whose types are NOT identical although
@@ -345,6 +375,18 @@ func (s *Spec) genStruct(depth int) *node {
 		n.Fields = append(n.Fields, s.mkField(i, s.gen(depth+1, n), n))
 	}
 	s.structsAt = s.structsAt[:len(s.structsAt)-1]
+	if s.Prop == "C07" && depth < 2 && s.rng.IntN(3) == 0 {
+		// an embedded struct (or *struct) holding a fallible leaf: the embedded field is a
+		// location element like any other field
+		e := &node{Kind: "struct", ID: s.id()}
+		s.Structs[e.ID] = e
+		e.Fields = append(e.Fields, &field{Name: "F0", TName: "F0", N: &node{Kind: "basic", Basic: "int"}}, s.mkField(1, s.leafNoMap(), nil))
+		var fn *node = e
+		if s.rng.IntN(3) == 0 {
+			fn = &node{Kind: "ptr", Elem: e}
+		}
+		n.Fields = append(n.Fields, &field{Embed: true, Name: fmt.Sprintf("S%d", e.ID), TName: fmt.Sprintf("T%d", e.ID), N: fn})
+	}
 	if s.Prop == "C04" && s.rng.IntN(4) == 0 {
 		// accessor method returning internal state of the source
 		var gn *node
@@ -646,11 +688,29 @@ func (s *Spec) expr(n *node, side string) string {
 }
 
 func (s *Spec) fieldExpr(f *field, side string) string {
-	e := s.expr(f.N, side)
+	e := s.alias(s.expr(f.N, side), s.expr(f.N, "S") == s.expr(f.N, "T"))
 	if side == "T" && f.PtrOnT {
 		return "*" + e
 	}
 	return e
+}
+
+// alias spells a container or pointer type through a type alias when the world uses aliases
+// (only types that read the same on both sides, so one alias serves both).
+func (s *Spec) alias(e string, sameBothSides bool) string {
+	if !s.Aliases || !sameBothSides || !(strings.HasPrefix(e, "[]") || strings.HasPrefix(e, "map[") || strings.HasPrefix(e, "*")) {
+		return e
+	}
+	if a, ok := s.aliasOf[e]; ok {
+		return a
+	}
+	if s.aliasOf == nil {
+		s.aliasOf = map[string]string{}
+	}
+	a := fmt.Sprintf("AL%d", len(s.aliasOf))
+	s.aliasOf[e] = a
+	s.aliasOrder = append(s.aliasOrder, e)
+	return a
 }
 
 func sortedIDs[V any](m map[int]V) []int {
@@ -665,6 +725,7 @@ func sortedIDs[V any](m map[int]V) []int {
 // TypesSource renders package w's type declarations and custom functions.
 func (s *Spec) TypesSource() string {
 	var b strings.Builder
+	s.aliasOf, s.aliasOrder = nil, nil
 	b.WriteString("package w\n\n")
 	if s.usesRuntime() {
 		b.WriteString("import \"verifsim\"\n\n")
@@ -693,7 +754,7 @@ func (s *Spec) TypesSource() string {
 		n := s.Shared[id]
 		fmt.Fprintf(&b, "type Sh%d struct {\n", id)
 		for _, f := range n.Fields {
-			fmt.Fprintf(&b, "\t%s %s\n", f.Name, s.expr(f.N, "S"))
+			fmt.Fprintf(&b, "\t%s %s\n", f.Name, s.alias(s.expr(f.N, "S"), true))
 		}
 		b.WriteString("}\n")
 	}
@@ -714,6 +775,10 @@ func (s *Spec) TypesSource() string {
 				name := f.Name
 				if side == "T" {
 					name = f.TName
+				}
+				if f.Embed {
+					fmt.Fprintf(&b, "\t%s\n", s.fieldExpr(f, side))
+					continue
 				}
 				fmt.Fprintf(&b, "\t%s %s\n", name, s.fieldExpr(f, side))
 			}
@@ -757,6 +822,9 @@ func (s *Spec) TypesSource() string {
 			targ = "c TwinConverter, " + targ
 		}
 		fmt.Fprintf(&b, "func Twin%s(%s) TLeaf%d {\n\treturn TLeaf%d{ID: s.ID, Mark: %q + s.V}\n}\n", li.Fn, targ, id, id, li.Fn+":")
+	}
+	for i, e := range s.aliasOrder {
+		fmt.Fprintf(&b, "type AL%d = %s\n", i, e)
 	}
 	return b.String()
 }
